@@ -127,7 +127,22 @@ def do_handshake(w, v, c_opts, s_opts, session=None, foreign=False,
         server["sessionCache"] = w.cache
     if c_opts.get("ccert"):
         server["reqCert"] = True
-    p = sc.connect(client, server)
+    prepare = None
+    if s_opts.get("age_add") is not None:
+        # the server picks another (equally legal) 32-bit ticket_age_add for
+        # the tickets it issues
+        from vlib.deviant import Deviant
+
+        def fn(dev, idx, ct, data):
+            if ct == 22 and data[:1] == b"\x04" and v == "tls13":
+                return [(ct, data[:8] + int(s_opts["age_add"]).to_bytes(
+                    4, "big") + data[12:])]
+            return None
+
+        def prepare(cc, scn):
+            Deviant(scn, fn)
+        w.labels.append("ticket-age-add=%08x" % s_opts["age_add"])
+    p = sc.connect(client, server, prepare=prepare)
     if p.both_ok:
         # post-handshake: deliver tickets (TLS 1.3) and prove data flows
         sc.do_write(p, "s", b"pong")
@@ -333,7 +348,13 @@ def step(w, i, op):
         # the original ticket stays usable on the client side)
         if same:
             e["invalid_c"] = True
-        e["invalid_s"] = True
+        if e.get("last_resumed_mech") == "id" or e["invalid_s"] is True:
+            e["invalid_s"] = True
+        else:
+            # resumed from a ticket: the server built that connection's
+            # session from the ticket, its cache entry (if any) is another
+            # object and has not seen the failure
+            e["invalid_s"] = "stateless"
         if len(op) > 3 and op[3]:
             # the client keeps a copy of the session from before the failure
             e["session"] = snap
@@ -506,6 +527,7 @@ def do_resume(w, i, e, offer):
                            hist, labels=w.labels)
         w.labels.append("resumed")
         e["last_resumed_pair"] = p
+        e["last_resumed_mech"] = mech
         return None
     # not resumed
     if why in ("forged", "expired", "foreign", "unknown-id", "evicted",
@@ -573,7 +595,7 @@ def eligible(w, e, mech, tam, v, age_s, age_c, inconsistent,
     if e["invalid_c"]:
         return False, "invalidated"
     if e["invalid_s"]:
-        if mech == "id":
+        if mech == "id" and e["invalid_s"] is True:
             return False, "invalidated"
         # stateless tickets: the server has no record of the failure
         return None, "server-side-invalidation-stateless"
@@ -631,7 +653,9 @@ c_opts_st = st.fixed_dictionaries({
     "ccert": st.sampled_from([False, False, True])})
 s_opts_st = st.fixed_dictionaries({
     "cache": st.booleans(), "tickets": st.sampled_from([True, True, False]),
-    "ems": st.just(True), "etm": st.just(True)})
+    "ems": st.just(True), "etm": st.just(True),
+    "age_add": st.sampled_from([None, None, 0, 2 ** 31, 2 ** 32 - 1,
+                                2 ** 32 - 500])})
 
 
 def op_strategy():
@@ -683,7 +707,7 @@ def strategy(tier):
 
 
 def budget(tier):
-    return 300 if tier == "quick" else 6000
+    return 1500 if tier == "quick" else 12000
 
 
 def explicit(tier, seed):
@@ -699,6 +723,12 @@ def explicit(tier, seed):
                 continue
             full = ["full", v, dict(base_c), dict(s_opts)]
             yield {"ops": [full, ["resume", 0, {}]]}
+            if v == "tls13":
+                for aa in (0, 2 ** 31, 2 ** 32 - 1, 2 ** 32 - 500):
+                    yield {"ops": [["full", v, dict(base_c),
+                                    dict(s_opts, age_add=aa)],
+                                   ["adv", 1, "both"], ["resume", 0, {}],
+                                   ["resume", 1, {}]]}
             yield {"ops": [full, ["close", 0, "clean"], ["resume", 0, {}],
                            ["resume", 0, {}]]}
             yield {"ops": [full, ["close", 0, "fatal"], ["resume", 0, {}]]}
